@@ -148,8 +148,7 @@ def run(tier, replay):
         sl, s3, t3, cmd3 = slots.enumerate_slots(os.path.join(d, "tlc_slots"))
         states += s3
         trans += t3
-        rng.shuffle(sl)
-        for (tn, fa, fb) in sl[: (250000 if tier == "thorough" else 25000)]:
+        for (tn, fa, fb) in slots.stratified(sl, rng, 250000 if tier == "thorough" else 6000):
             texts.append(("slot:" + tn, slots.program(tn, fa, fb), "7\r\nabc, 2\r\n"))
         # 2. accepted programs of the other families and of the repository, on several inputs
         import c01, c03, c04, c05
